@@ -16,6 +16,7 @@ import glob
 import os
 import z3
 
+from . import vocab as V
 from pyvc.contract import Contract, Scope, contract
 from pyvc.values import SymV, Obj, PyDict, PyList, Opaque, NameK, mk, ival, rval, bval, kind_of
 from pyvc import source
@@ -283,6 +284,25 @@ def rules():
     out.append(R("host-config-duplicated-process", lambda d: d[hc][first_key(d[hc])]["processes"].append(
         d[hc][first_key(d[hc])]["processes"][0]), lambda d: len(d[hc][first_key(d[hc])]["processes"]) > 0))
     out.append(R("host-config-unknown-os", lambda d: d[hc][first_key(d[hc])].__setitem__("os", "beos")))
+    # "unknown name" comes in several spellings: the any-OS marker of exploit definitions ("none" in any case / YAML
+    # null) is NOT a name a host can run or an exploit can target as service / process; names are case sensitive
+    def casevar(s_):
+        return s_.upper() if s_ != s_.upper() else s_.lower()
+    UNKNOWN = (("none-string", lambda d, sec: "none"), ("None-string", lambda d, sec: "None"), ("null", lambda d, sec: None),
+               ("empty-string", lambda d, sec: ""), ("zero", lambda d, sec: 0),
+               ("other-case", lambda d, sec: casevar(d[sec][0])))
+    for nm, mk_ in UNKNOWN:
+        out.append(R(f"host-config-unknown-os:{nm}", lambda d, mk_=mk_: d[hc][first_key(d[hc])].__setitem__("os", mk_(d, "os"))))
+        out.append(R(f"host-config-unknown-service:{nm}", lambda d, mk_=mk_: d[hc][first_key(d[hc])]["services"].append(mk_(d, "services"))))
+        out.append(R(f"host-config-unknown-process:{nm}", lambda d, mk_=mk_: d[hc][first_key(d[hc])]["processes"].append(mk_(d, "processes"))))
+        out.append(R(f"exploits-unknown-service:{nm}", lambda d, mk_=mk_: d["exploits"][first_key(d["exploits"])].__setitem__(
+            "service", mk_(d, "services")), lambda d: len(d["exploits"]) > 0))
+        out.append(R(f"privilege_escalation-unknown-process:{nm}", lambda d, mk_=mk_: d["privilege_escalation"][
+            first_key(d["privilege_escalation"])].__setitem__("process", mk_(d, "processes")), lambda d: len(d["privilege_escalation"]) > 0))
+        if nm in ("empty-string", "zero", "other-case"):
+            for sec in ("exploits", "privilege_escalation"):
+                out.append(R(f"{sec}-unknown-os:{nm}", lambda d, mk_=mk_, sec=sec: d[sec][first_key(d[sec])].__setitem__("os", mk_(d, "os")),
+                             lambda d, sec=sec: len(d[sec]) > 0))
     out.append(R("host-config-not-dict", lambda d: d[hc].__setitem__(first_key(d[hc]), ["linux"])))
     out.append(R("host-firewall-not-dict", lambda d: d[hc][first_key(d[hc])].__setitem__("firewall", ["ssh"])))
     out.append(R("host-firewall-bad-address", lambda d: d[hc][first_key(d[hc])].__setitem__("firewall", {"(9, 9)": []})))
@@ -298,6 +318,25 @@ def rules():
         d[hc][k]["value"] = Leaf("bad_leaf", "real")
         d["__neq__"] = ("bad_leaf", k)
     out.append(R("host-value-contradicts-sensitive", contradict))
+
+    def alias_pair(d, need_numbers=True):
+        """two sensitive hosts with different declared values that share ONE configuration mapping (YAML alias)"""
+        ks = [k for k in d[hc] if k in d["sensitive_hosts"]]
+        for i, a in enumerate(ks):
+            for b in ks[i + 1:]:
+                va, vb = d["sensitive_hosts"][a], d["sensitive_hosts"][b]
+                if d[hc][a] is d[hc][b] and (not need_numbers or (isinstance(va, (int, float)) and isinstance(vb, (int, float))
+                                                                  and va != vb)):
+                    return a, b
+        return None
+
+    def contradict_alias(d):
+        a, b = alias_pair(d, need_numbers=False)
+        la = d["sensitive_hosts"][a]
+        d[hc][a]["value"] = la          # right for the first host using the mapping, wrong for the second
+        d["__neq__"] = (la.name, b)
+    out.append(R("host-value-contradicts-sensitive:second-user-of-a-shared-mapping", contradict_alias,
+                 lambda d: alias_pair(d) is not None))
     out.append(R("firewall-missing-rule", lambda d: d["firewall"].pop(first_key(d["firewall"]))))
 
     def missing_reverse(d):
@@ -419,7 +458,13 @@ class LoaderLoad(Contract):
         I.ext_state["yaml_doc"] = doc
         S.extra["tdoc"] = tdoc
         S.extra["doc"] = doc
-        loader = Obj(I.repo.cls("nasim.scenarios.loader.ScenarioLoader"), {}, fresh=False, label="loader")
+        lcls = I.repo.cls("nasim.scenarios.loader.ScenarioLoader")
+        if I.find_member(lcls, "__init__") is not None and "__init__" in lcls.methods:
+            # a loader object at an arbitrary point of its life (it may have loaded other files before): built by the
+            # real constructor; every field a method other than __init__ writes holds unknown left-over state (hidden)
+            loader = V.construct(I, "nasim.scenarios.loader.ScenarioLoader", [], label="loader")
+        else:
+            loader = Obj(lcls, {}, fresh=False, label="loader")
         S.a = {"self": loader}
         S.call_args = ([loader, "doc.yaml"], {})
         return S
